@@ -351,6 +351,10 @@ func judge(evs []lcm.VerifEvent, parsed []porcupine.Event, kind string, seq int,
 	if linearizableSource {
 		if !porcupine.CheckEvents(porcupine.GetEtcdModel(), parsed) {
 			fail("faithful_history_accepted", "linearizable-run-rejected", "a run against a linearizable register was rejected by the checker")
+			// the same finding seen from the checker: a linearizable history, given to it the way the checker binary does (log,
+			// parser, CheckEvents), is answered "not linearizable" (C06)
+			run.Violate(hx.Violation{Property: "C06", Clause: "verdict_exact_at_the_binary", Signature: "linearizable-run-rejected", Seq: seq,
+				What: "the log of a run against a linearizable register, parsed and checked as the checker binary does, is answered not linearizable", Ops: evs[:minInt(len(evs), 60)]})
 		}
 		run.Count("c07:checked_linearizable")
 	}
@@ -530,4 +534,11 @@ func main() {
 		run.Nontrivial(fmt.Sprintf("synth%d", n))
 	}
 	_ = totalEv
+}
+
+func minInt(a, b int) int {
+	if a < b {
+		return a
+	}
+	return b
 }
